@@ -13,13 +13,11 @@ extern "C" int abs(int x) { return x < 0 ? -x : x; }
 #endif
 static bool close_to(double got, double want)
 {
-#ifdef VF_NATIVE
+  // relative tolerance in every build: the solver's exact reading satisfies it trivially; the concrete
+  // validation runs of the engine and the native runs use a rounded sqrt / division
   double d = got - want; if (d < 0) d = -d;
   double a = want < 0 ? -want : want;
   return d <= 1e-12 * (a + 1.);
-#else
-  return got == want; // solver: exact real arithmetic
-#endif
 }
 template <int N> static void draw(VectorDouble& v, double* v0, int g = VF_G)
 {
